@@ -163,7 +163,15 @@ def canonical(rng, ntracks: int, titles=True, nidx=(1, 3), name="disc.bin", firs
     lines = [f'FILE "{name}" BINARY\n']
     cur = rng.choice([0, 0, 150, rng.randint(0, 300)]) if first is None else first
     firsts = []
-    for k in range(1, ntracks + 1):
+    # track numbers: usually 1..n; sometimes gapped, sometimes in no order at all (S99: "the next track" is the next
+    # one in the sheet, whatever its number)
+    r = rng.random()
+    numbers = list(range(1, ntracks + 1))
+    if r < 0.2:
+        numbers = sorted(rng.sample(range(1, 100), ntracks))
+    elif r < 0.45:
+        numbers = rng.sample(range(1, 100), ntracks)
+    for idx, k in enumerate(numbers, 1):
         lines.append(f"  TRACK {k:02d} AUDIO\n")
         if titles and rng.random() < 0.7:
             lines.append(f'    TITLE "Track {k} {rng.choice(["A", "b-x", "Q 9"])}"\n')
